@@ -713,7 +713,7 @@ func (b *BR) onFallback(p any, err error) (any, error) {
 	if sc.chkPerItem {
 		if n := len(st.answers); n == 0 || st.answers[n-1].err == nil {
 			core.Problem("fallback of item %d invoked although its last attempt did not fail", i)
-		} else if err != st.answers[n-1].err {
+		} else if err != st.answers[n-1].err && (err == nil || !errors.Is(err, st.answers[n-1].err)) {
 			core.Problem("fallback of item %d received error %v, want the error of its last attempt %v", i, err, st.answers[n-1].err)
 		}
 		if n := len(st.answers); n != b.effBudget() && b.cancelled.Get() == 0 {
